@@ -3,6 +3,6 @@ CONSTANTS
   HostsN = 1
   Ips = 1
   WithForeign = TRUE
-  Policies <- PolQuick
+  Policies <- PolTwo
 INIT Init
 NEXT Next
